@@ -3,6 +3,7 @@ package main
 // Shared generators, read schedules and fault-injecting readers / writers.
 
 import (
+	"bytes"
 	"errors"
 	"io"
 	"math"
@@ -101,6 +102,40 @@ func sameFloat(a, b float64) bool {
 		return math.IsNaN(a) && math.IsNaN(b)
 	}
 	return a == b
+}
+
+// heldMarshalCheck calls MarshalText for every record FIRST, keeping the
+// returned slices without copying them, and only then compares each held
+// result with what Write produces for the same record: a MarshalText whose
+// result is invalidated by a later call (a recycled buffer) is caught here.
+// It returns the concatenated Write output.
+func heldMarshalCheck(k *K, marshal []func() ([]byte, error), write []func(io.Writer) error) []byte {
+	held := make([][]byte, len(marshal))
+	for i, m := range marshal {
+		txt, err := m()
+		if err != nil {
+			k.Failf("marshal-error", "MarshalText of record %d returned %v", i, err)
+		}
+		held[i] = txt
+	}
+	var all bytes.Buffer
+	for i, w := range write {
+		var one bytes.Buffer
+		if err := w(&one); err != nil {
+			k.Failf("write-error", "Write of record %d returned %v", i, err)
+		}
+		if !bytes.Equal(one.Bytes(), held[i]) {
+			j := 0
+			for j < one.Len() && j < len(held[i]) && one.Bytes()[j] == held[i][j] {
+				j++
+			}
+			k.Failf("write-vs-marshal", "record %d of %d: the bytes returned earlier by MarshalText (%d bytes, held while the other records were marshalled) differ from what Write produces (%d bytes); first difference at byte %d",
+				i, len(write), len(held[i]), one.Len(), j)
+		}
+		all.Write(one.Bytes())
+	}
+	k.Count("held_marshal_results", int64(len(held)))
+	return all.Bytes()
 }
 
 // ---------------------------------------------------------------- readers
